@@ -45,7 +45,7 @@ Init ==
   /\ ev = [op |-> "reset"]
   /\ hist = <<>>
 
-BaseEv(op) == [op |-> op, mes |-> <<>>, def |-> "", faildial |-> 0, e |-> "", name |-> "", n |-> 0, res |-> "OK", srv |-> "", dials |-> <<>>,
+BaseEv(op) == [op |-> op, mes |-> <<>>, def |-> "", faildial |-> 0, e |-> "", name |-> "", stream |-> FALSE, n |-> 0, res |-> "OK", srv |-> "", dials |-> <<>>,
                conns |-> conns, pools |-> <<>>, routes0 |-> cur, routes |-> cur, settled |-> TRUE, gor |-> 0, i |-> Len(hist) + 1]
 
 SetToSeq(S) == LET RECURSIVE F(_)
@@ -128,14 +128,15 @@ Sever(e) ==
         /\ Commit([BaseEv("sever") EXCEPT !.e = e, !.conns = conns', !.routes0 = cur, !.routes = r, !.pools = SetToSeq(pools)], [op |-> "sever", e |-> e])
   /\ UNCHANGED <<alive, closed, mes, def, pools, up, pmes>>
 
-Rpc(n) ==
+\* a call with the MultiEndpoint name n in its context ("" = none), unary (Invoke) or as a stream (NewStream): both go through pickConn
+Rpc(n, st) ==
   /\ alive /\ ~closed
   /\ Cardinality({i \in DOMAIN hist : hist[i].op = "rpc"}) < MaxRpc
   /\ LET target == IF n # "" /\ n \in Names(mes) THEN n ELSE def
          S == {i \in DOMAIN cur : cur[i].name = target}
          e == cur[CHOOSE i \in S : TRUE].e
-     IN Commit([BaseEv("rpc") EXCEPT !.name = n, !.res = IF e \in up \ sev THEN "OK" ELSE "ERR", !.srv = IF e \in up \ sev THEN e ELSE "",
-                                     !.pools = SetToSeq(pools)], [op |-> "rpc", name |-> n])
+     IN Commit([BaseEv("rpc") EXCEPT !.name = n, !.stream = st, !.res = IF e \in up \ sev THEN "OK" ELSE "ERR", !.srv = IF e \in up \ sev THEN e ELSE "",
+                                     !.pools = SetToSeq(pools)], [op |-> "rpc", name |-> n, stream |-> st])
   /\ UNCHANGED <<mvars, pmes>>
 
 \* the clock advances: without recovery timeout / switching delay nothing is pending, routes stay
@@ -156,7 +157,7 @@ Next ==
   /\ \/ \E k \in OptSets, fd \in {0, 1, 2} : Configure(IF alive THEN "update" ELSE "new", k, fd)
      \/ \E e \in Endpoints, b \in BOOLEAN : Flip(e, b)
      \/ \E e \in Endpoints : Sever(e)
-     \/ \E n \in {"", "m1", "m2", "zz"} : Rpc(n)
+     \/ \E n \in {"", "m1", "m2", "zz"}, st \in BOOLEAN : Rpc(n, st)
      \/ \E n \in Ticks : Tick(n)
      \/ Close
 
